@@ -120,7 +120,7 @@ func c13Bounded(c *CaseC13) bool {
 		n.Lsh(n, uint(d))
 		tot.Add(tot, n)
 	}
-	return tot.Cmp(big.NewInt(8192)) <= 0
+	return tot.Cmp(big.NewInt(20000)) <= 0
 }
 
 type c13Ref struct {
@@ -305,6 +305,22 @@ func checkC13(c *CaseC13, fl *Fails) {
 }
 
 func sweepC13(tier string, emit func(*CaseC13)) {
+	// large requests: a g x g block of footprints, several storeys, listed storey by storey (so every footprint
+	// reappears after all the others) - more distinct footprints than a pre-sized table holds
+	for _, g := range []int64{33, 40, 70} {
+		if tier == "quick" && g > 40 {
+			continue
+		}
+		c := &CaseC13{E: 25, Off: 0, OutV: 20}
+		for storey := int64(0); storey < 2; storey++ {
+			for x := int64(0); x < g; x++ {
+				for y := int64(0); y < g; y++ {
+					c.Tiles = append(c.Tiles, Tile{H: 20, X: 931000 + x, Y: 412000 + y, V: 20, Z: 10 + 3*storey})
+				}
+			}
+		}
+		emit(c)
+	}
 	// documented examples and their neighbourhood
 	for _, off := range []int64{-2, 0, 7, 8, 9} {
 		for _, v := range []int64{22, 23, 24, 25, 26, 27} {
